@@ -322,10 +322,35 @@ structure BlkEffect where
   jmpEvents : List Event
   next : Next
 
-def execBlk (tbl : RegTable) (env : Env) (σ : State) (b : Pcode.Blk) : Option BlkEffect := do
+def execBlk (tbl : RegTable) (env : Env) (σ : State) (b : Pcode.Blk) (calls : Nat := 0) : Option BlkEffect := do
   let (σ₁, e₁) ← execDefs tbl σ b.defs
-  let (e₂, n) ← execJmps tbl env σ₁ 0 b.jmps
+  let (e₂, n) ← execJmps tbl env σ₁ calls b.jmps
   some ⟨e₁, σ₁, e₂, n⟩
+
+/-- run the blocks of a function (same shape as `Sem.runBlocks`): `fuel` bounds the number of executed
+blocks; a jump to a block that is not in the list ends the trace with the same `stuck` event as in `Sem`;
+`none` = the reference semantics does not define some executed instruction or jump -/
+def runBlocks (tbl : RegTable) (env : Env) (blocks : List (Term Pcode.Blk)) :
+    Nat → Tid → State → Nat → Option (List Event)
+  | 0, _, _, _ => some [.outOfFuel]
+  | fuel + 1, cur, σ, calls =>
+    match blocks.find? (fun b => b.tid == cur) with
+    | none => some [.stuck s!"no block {cur.id}"]
+    | some b => do
+      let (σ₁, evs) ← execDefs tbl σ b.term.defs
+      let (evs₂, n) ← execJmps tbl env σ₁ calls b.term.jmps
+      match n with
+      | .stop => some (evs ++ evs₂)
+      | .goto t σ₂ calls₂ => do
+        let rest ← runBlocks tbl env blocks fuel t σ₂ calls₂
+        some (evs ++ evs₂ ++ rest)
+
+/-- trace of a function whose entry block is the first of `blocks` (as `Sem.runSub`) -/
+def runSub (tbl : RegTable) (env : Env) (blocks : List (Term Pcode.Blk)) (σ : State) (fuel : Nat) :
+    Option (List Event) :=
+  match blocks with
+  | [] => some [.deadEnd (σ.snapshot env.physRegs)]
+  | b :: _ => runBlocks tbl env blocks fuel b.tid σ 0
 
 /-- the base registers of the table as IR variables (the physical registers of the lifted program) -/
 def baseRegs (tbl : RegTable) : List Variable :=
